@@ -60,6 +60,7 @@ func runC07(r *R) {
 	if w.Draw(3) == 0 {
 		plan.ZeroReads = []int{w.Draw(4), 4 + w.Draw(30), 40 + w.Draw(100)}
 	}
+	plan.EOFWithData = w.Draw(5) == 0
 	faultAt := int64(-1)
 	if f.Biased(4, 3, 4) == 1 && len(file) > 0 && !inline {
 		faultAt = faultOffset(f, file)
